@@ -149,7 +149,7 @@ def run_stage(pid, flavour, binary, seconds, tier, seed, nworkers, extra, known_
             if rc == 3:
                 # the worker abandoned a simulated world (deadlock / budget), reported it, and asked to be restarted
                 remaining = seconds - (now - t0)
-                if wk.last_begin is not None and remaining > 1 and restarts < 2000:
+                if wk.last_begin is not None and remaining > 1 and restarts < 20000:
                     restarts += 1
                     cmd = list(wk.cmd)
                     cmd[cmd.index("--from") + 1] = str(wk.last_begin + nworkers)
